@@ -69,6 +69,22 @@ def _first(md, H):
                     return True
             return kind == "all"
         return h
+    def position(rev):
+        def h(ex, st, fr, t, a):
+            it = H["elems"](ex, a[0]) if len(a) == 2 else None
+            if it is None:
+                return NotImplemented
+            idx = list(range(len(it)))
+            for i in (reversed(idx) if rev else idx):
+                r = H["call_value"](ex, st, a[1], [it[i]])
+                if not isinstance(r, bool):
+                    return NotImplemented
+                if r:
+                    return SX.some(i)
+            return SX.none()
+        return h
+    md.on(SX.by(None, "position"), position(False))
+    md.on(SX.by(None, "rposition"), position(True))
     md.on(SX.by(None, "all"), quant("all"))
     md.on(SX.by(None, "any"), quant("any"))
 
